@@ -259,7 +259,10 @@ def run(R):
     # encoder validation (every run)
     for nb in (1, 2, 4):
         for o in ORDERS:
-            R.encoder_validation.append(validate_encoder(R, nb, o))
+            ev_ = validate_encoder(R, nb, o)
+            R.encoder_validation.append(ev_)
+            if ev_["unpack_256_bytes"] and ev_["pack_256_bytes"]:
+                R.validated(2)
     items = [(nb, o, L) for nb in (1, 2, 4) for o in ORDERS for L in range(0, maxL + 1)]
     parts = R.pmap(kernel_work, items)
     witems = []
